@@ -385,6 +385,7 @@ def judge(w):
 
 
 INTERVALS = (0.0, 0.5, 1.0, 2.5)
+FINE = 1.0 / 256          # an interval / a distance between two expiries far below any plausible wait granularity
 
 
 def timer_specs(full):
@@ -400,6 +401,10 @@ def timer_specs(full):
     for iv in (1.0, 2.5, 0.5):
         for at in (0.0, 0.5):
             specs.append({'interval': iv, 'persist': False, 'kind': 'datetime', 'at': at, 'act': None})
+    if full:
+        for persist in (False, True):
+            specs.append({'interval': FINE, 'persist': persist, 'kind': 'float', 'at': 0.0, 'act': None})
+            specs.append({'interval': 0.5 + FINE, 'persist': persist, 'kind': 'float', 'at': 0.5, 'act': None})
     return specs
 
 
@@ -420,6 +425,12 @@ def programs(tier):
     menu = small if tier != 'quick' else [s for s in small if s['interval'] != 2.5 or not s['persist']]
     for a, b in itertools.combinations_with_replacement(range(len(menu)), 2):
         yield {'timers': [menu[a], menu[b]], 'chain': False, 'task': (a + b) % 3 == 0}, k2
+    # two expiries a tiny distance apart (the idle wait between them is tiny but not zero)
+    for base in (0.5, 1.0):
+        for pa in (False, True):
+            for pb in (False, True):
+                yield {'timers': [{'interval': base, 'persist': pa, 'kind': 'float', 'at': 0.0, 'act': None},
+                                  {'interval': base + FINE, 'persist': pb, 'kind': 'float', 'at': 0.0, 'act': None}], 'chain': False, 'task': False}, k2
     if tier != 'quick':
         tri = [s for s in small if s['kind'] == 'float' and s['interval'] in (0.0, 0.5, 1.0)]
         for a, b, c in itertools.combinations(range(len(tri)), 3):
@@ -469,7 +480,7 @@ def run(tier, seed, workers):
         st.selfcheck_errors.append('determinism: two runs differ')
     st.states = len(st.outcomes)
     st.bounds = {'programs': len(items), 'deviation_bound_single_timer': items and max(b for _, b in items), 'horizon_virtual_seconds': 5.0,
-                 'horizon_iterations': 60, 'intervals': list(INTERVALS)}
+                 'horizon_iterations': 60, 'intervals': list(INTERVALS) + [FINE, 0.5 + FINE]}
     for c in ('executions_with_spurious_early_wake', 'timer_firings'):
         if not st.counters[c]:
             st.selfcheck_errors.append('vacuity: ' + c)
